@@ -1,6 +1,5 @@
 package vsim
 
-
 import (
 	"fmt"
 	"time"
@@ -232,13 +231,16 @@ func genSeqOps(g *Rand, fl seqFlavour, nslots, n int, thorough bool) []SOp {
 				op.Kw = nil
 			}
 		case "reg":
-			if fl == seqC13 && g.Chance(3, 4) {
+			if (fl == seqC13 && g.Chance(3, 4)) || (fl == seqC12 && g.Chance(1, 2)) || (fl == seqC03 && g.Chance(1, 5)) || (fl == seqC05 && g.Chance(1, 5)) {
 				// few procedures, shared policies: callees with different
 				// feature sets end up on one registration
 				op.URI = g.Pick("p.a", "p.b")
 				op.Opts = wamp.Dict{"invoke": g.Pick("roundrobin", "first", "last", "random")}
-				if g.Chance(1, 2) {
+				if g.Chance(1, 2) && fl == seqC13 {
 					op.Opts["forward_timeout"] = true
+				}
+				if fl == seqC12 && g.Chance(1, 4) {
+					op.Opts["disclose_caller"] = true
 				}
 				ops = append(ops, op)
 				continue
@@ -578,7 +580,7 @@ func genMeta(g *Rand, op *SOp, nslots int, fl seqFlavour) {
 		op.URI = "wamp.session.kill"
 		op.Args = wamp.List{sessRef()}
 		if g.Bool() {
-			op.Kw = wamp.Dict{"reason": g.Pick("app.kill.reason", "wamp.close.normal", "bad reason"), "message": "bye"}
+			op.Kw = wamp.Dict{"reason": g.Pick("app.kill.reason", "wamp.close.normal", "bad reason", "wamp.close.system_shutdown", "wamp.close.goodbye_and_out", "wamp.error.canceled"), "message": "bye"}
 		}
 	case 15:
 		op.URI = "wamp.session.kill_by_authid"
